@@ -22,6 +22,7 @@ impl<T, E> Approximation<T, E> {
 //@@ FN float/error/assert_finite.rs
 impl<const B: Word> Repr<B> {
 //@@ FN float/repr/is_infinite.rs
+//@@ FN float/convert/repr_is_finite.rs
 //@@ FN float/convert/repr_to_int.rs
 }
 impl<R: Round> Context<R> {
